@@ -6,6 +6,8 @@
      completion once started (only supplied slots), the dispatcher never idles in a supplied slot while an instance
      is pending, instances of one callback are served in arrival order, and (timer) an instance outside the class
      {analysed timer, higher-priority timers} never starts while a class instance is pending.
+   and, through Proofs/ExecutorBridge.v and Proofs/ChainBridge.v, against the OPERATIONAL executor models Spec/Executor.v and
+   Spec/ExecutorChains.v (every run of which is proved to be a member of the abstract class);
    - the processing-chain analysis (Lemma 8) against the same dispatcher class with RELEASE-ON-COMPLETION semantics
      (Proofs/ChainSound.v: chain_jobs): every source event gives rise to one instance per callback of the chain, the
      instance of the first callback is released when the source event arrives, the instance of callback l+1 exactly
@@ -18,7 +20,8 @@ From RTA.Model Require Import Base Arrival Wcet Demand Supply Eval WellFormed.
 From RTA.Spec Require Import Sched Events TaskModel Reservation SupplySched.
 From RTA.Spec Require Import NonPreemptive.
 From Coq Require Import Permutation.
-From RTA.Proofs Require Import SupplyProofs ReservationProofs FifoEndToEnd EsSound PpSound ChainSound.
+From RTA.Spec Require Import Executor ExecutorChains.
+From RTA.Proofs Require Import SupplyProofs ReservationProofs FifoEndToEnd EsSound PpSound ChainSound RrSound ExecutorBridge ChainBridge.
 
 (* every reservation schedule a supply model admits delivers at least provided_service in EVERY window *)
 Theorem C04_supply_bound_holds_for_every_budget_placement : forall sb sigma, wf_sb sb -> supply_admits sb sigma ->
@@ -102,3 +105,51 @@ Proof. exact chain_sound_total. Qed.
 (* non-vacuity (Proofs/ChainSound.v, all hypotheses proved for concrete systems): PeriodicS 2 5, chain c0 (1) -> c1 (2) on
    Sporadic 20 0 plus one other callback: bound 13, attained (ch_completes, ch_tight); dedicated processor, source Sporadic 4 3,
    two events: bound 7, observed 5 and 6 (d_total, d_observed) *)
+
+(* ---- the OPERATIONAL executor (Spec/Executor.v, the model C05 is proved against) is a member of the abstract dispatcher class:
+        Proofs/ExecutorBridge.v constructs the job list and the schedule of a run and proves valid / uses_supply / work_conserving_under /
+        runs_to_completion_under / fifo_within_task / precedence_respected for them (run_prefix_in_class and the run_* lemmas), so the
+        polling-point and timer theorems above hold for every run of the executor.  executor_meets_bound cbs cost_of arr sigma i R:
+        for every horizon H, every finished instance (i, a, f) has f - a <= R, and every instance of i released at a with
+        a + R <= H does finish by a + R. ---- *)
+Theorem C04_polling_point_callback_sound_for_the_executor : forall dbg sb (tasks : list task) i limit R cbs cost_of arr sigma,
+  wf_sb sb -> supply_admits sb sigma -> Forall fifo_task_ok tasks -> length cbs = length tasks -> (i < length tasks)%nat ->
+  arrivals_ok_t tasks arr -> costs_ok_t tasks cost_of ->
+  e_pp dbg sb (rb_of (nth i tasks (Never, 0))) (Agg (map rb_of (remove_nth i tasks))) limit = ROk R ->
+  executor_meets_bound cbs cost_of arr sigma i (N.to_nat R).
+Proof. exact pp_sound_executor. Qed.
+(* timers: hp = any set of timers such that {i} + hp is closed under the executor's dispatch order (smaller priority number first,
+   ties by index) -- the least such set is "the timers that precede i"; every other callback has WCET <= B *)
+Theorem C04_timer_sound_for_the_executor : forall dbg sb (tasks : list task) i (hp : nat -> bool) B limit R cbs cost_of arr sigma,
+  wf_sb sb -> supply_admits sb sigma -> Forall fifo_task_ok tasks -> length cbs = length tasks -> (i < length tasks)%nat ->
+  arrivals_ok_t tasks arr -> costs_ok_t tasks cost_of ->
+  is_timer (cb cbs i) = true -> hp i = false ->
+  (forall c, (c < length tasks)%nat -> hp c = true -> is_timer (cb cbs c) = true) ->
+  (forall c c', (c < length tasks)%nat -> (c' < length tasks)%nat -> is_timer (cb cbs c) = true ->
+     c' = i \/ hp c' = true -> precedes cbs c c' -> c = i \/ hp c = true) ->
+  (forall i', (i' < length tasks)%nat -> i' <> i -> hp i' = false -> snd (nth i' tasks (Never, 0)) <= B) ->
+  e_timer dbg sb (rb_of (nth i tasks (Never, 0))) (Agg (map rb_of (select_tasks hp tasks))) B limit = ROk R ->
+  executor_meets_bound cbs cost_of arr sigma i (N.to_nat R).
+Proof. exact timer_sound_executor. Qed.
+Definition C04_executor_is_in_the_dispatcher_class := run_prefix_in_class.
+Definition C04_pp_for_the_executor_nonvacuous := pp_sound_executor_nonvacuous.
+Definition C04_timer_for_the_executor_nonvacuous := timer_sound_executor_nonvacuous_hp.
+
+(* processing chains on the operational executor WITH chains (Spec/ExecutorChains.v: on completion of an instance of callback c one
+   instance of next c is released, carrying the source event's arrival time; cross-checked against Spec/Executor.v and tools/sim.py):
+   Proofs/ChainBridge.v proves chain_jobs / chain_jobs_complete and the dispatcher hypotheses for its runs.  chain_arrivals_ok: the
+   first callback's and the off-chain callbacks' external arrivals are admissible, the other chain callbacks have no external arrivals
+   (necessary: chain_checks_external_arrivals).  chain_executor_meets_bound ... i R: for every horizon H every finished instance of the
+   last callback completes within R of its SOURCE event's arrival, and for every source event at a with a + R <= H it does finish. *)
+Theorem C04_processing_chain_sound_for_the_executor : forall dbg sb (tasks : list task) (pre : list nat) (i : nat) (ab : AB) limit R
+    cbs cost_of arr sigma,
+  wf_sb sb -> supply_admits sb sigma -> Forall fifo_task_ok tasks -> NoDup (pre ++ [i]) ->
+  (forall c, In c (pre ++ [i]) -> (c < length tasks)%nat /\ fst (nth c tasks (Never, 0)) = ab) ->
+  length cbs = length tasks -> chain_arrivals_ok tasks (pre ++ [i]) arr -> costs_ok_t tasks cost_of ->
+  e_chain dbg sb (chain_rb ab tasks i) (Agg (map (chain_rb ab tasks) pre))
+    (Agg (map (chain_rb ab tasks) pre ++ [chain_rb ab tasks i]))
+    (Agg (map rb_of (select_tasks (off_chain (pre ++ [i])) tasks))) limit = ROk R ->
+  chain_executor_meets_bound cbs cost_of (pre ++ [i]) arr sigma i (N.to_nat R).
+Proof. exact chain_sound_executor. Qed.
+Definition C04_chain_for_the_executor_nonvacuous := chain_sound_executor_nonvacuous.
+Definition C04_executor_without_chains_is_the_executor := run_chains_no_chain.
